@@ -31,6 +31,21 @@ CHECKS: dict[str, tuple[str, str, str, str]] = {
     ),
 }
 
+CHECKS.update({
+    "C05": (
+        "E1 package engine",
+        "property-based testing: exhaustive depth<=1 / strided depth-2 enumeration + Hypothesis-drawn annotation terms, in 5 positions, against a reference translation (canonical type trees)",
+        "Every annotation term of depth<=1 over the full alphabet, depth-2 terms over a reduced alphabet and random terms to depth 3-4 are translated by the real pipeline in five positions and compared with a reference translation written from the statement; unions are also checked for duplicate members.",
+        "§5 C05",
+    ),
+    "C06": (
+        "E1 package engine",
+        "property-based testing: exhaustive kind-sequence x default-mask enumeration + Hypothesis-drawn signatures against the generated signature itself (stub and API JSON)",
+        "All legal parameter-kind sequences up to length 3 (quick) / 5 (thorough) with every legal default placement on five kinds of holder, plus random signatures with literal and non-literal defaults and odd receivers, are compared parameter by parameter (names, order, default values as evaluated by Python, passing kind, optionality) in stub and API JSON.",
+        "§5 C06",
+    ),
+})
+
 NOT_YET = "check not built yet in this session (work in progress, see DESIGN.md §9)"
 
 
